@@ -184,7 +184,11 @@ func (s *chainSc) Plan(w *World) {
 	for i := 0; i < 3; i++ {
 		c := &Client4{ID: i, MAC: drawMAC(t, 6, i+1), Link: 2 + int(t.Draw(2)), Bcast: true}
 		s.clients4 = append(s.clients4, c)
-		s.clients6 = append(s.clients6, newClient6(t, i, 2+int(t.Draw(2))))
+		c6 := newClient6(t, i, 2+int(t.Draw(2)))
+		if t.Draw(2) == 1 {
+			c6.Relays = drawRelays(t, t.Range(1, 3), c6)
+		}
+		s.clients6 = append(s.clients6, c6)
 	}
 	w.Sim.SetPoolReuse(int(t.Draw(3)))
 }
@@ -284,6 +288,15 @@ func (s *chainSc) OnHandled(w *World, dg *DG) {
 		if got[i].Plugin != want[i].name || got[i].Args != want[i].args {
 			w.Violate("C13", "invocation-order", "dg%d (%s): handler #%d is %s %s, expected %s %s; ran:%s", dg.ID, dg.Kind, i, got[i].Plugin, got[i].Args, want[i].name, want[i].args, desc())
 			return
+		}
+		wantSum := uint64(0)
+		if dg.V6 && dg.Req6 != nil {
+			wantSum = sum6(dg.Req6)
+		} else if dg.Req4 != nil {
+			wantSum = sum4(dg.Req4)
+		}
+		if wantSum != 0 && got[i].ReqSum != wantSum {
+			w.Violate("C13", "request-not-original", "dg%d (%s): handler #%d (%s) received a request object that is not the datagram the server received (for a relayed message: not the outer Relay-Forward)", dg.ID, dg.Kind, i, got[i].Plugin)
 		}
 		if got[i].ReqPtr != got[0].ReqPtr {
 			w.Violate("C13", "request-identity", "dg%d (%s): handler #%d did not receive the original request object", dg.ID, dg.Kind, i)
